@@ -165,6 +165,7 @@ structure SchD where
   key : List Bytes := []
   built : Option Built := none
   tape0 : Tape := []          -- the tape as it was when `setup` started
+  hashTbl : String := "hash:sha1"
 
 def parseRawVal (s : String) : Option RawVal :=
   match s.splitOn ":" with
@@ -189,14 +190,17 @@ def parseDraw (s : String) : Option Draw :=
   | ["l", v] => (parseList parseNat v).map .nats
   | _ => none
 
-def leavesOf (t : Tables) : Leaves :=
-  { hmac := t.get2 "hmac:sha1", E := t.get2 "aesenc", D := t.get2 "aesdec", sha := t.get1 "hash:sha1" }
+def leavesOfH (hashTbl : String) (t : Tables) : Leaves :=
+  { hmac := t.get2 "hmac:sha1", E := t.get2 "aesenc", D := t.get2 "aesdec", sha := t.get1 hashTbl }
 
-def schReq (t : Tables) (s : SchD) : List String → SchD × String
+def schReq (t : Tables) (s : SchD) (req : List String) : SchD × String :=
+  let leavesOf := leavesOfH s.hashTbl
+  match req with
   | "cfg" :: name :: fields =>
     match fields.mapM parseField with
     | none => (s, bad)
     | some raw =>
+      let s := { s with hashTbl := "hash:" ++ (getName raw "hash_h").toLower }
       match buildScheme name raw with
       | .ok ops => ({ s with ops := some ops, built := none }, "ok")
       | .error e => ({ s with ops := none, built := none }, "err " ++ e.name)
